@@ -27,6 +27,7 @@
    C23                  the statement itself: whenever the ChiaLisp run fits the budget (0 =
                         unlimited = 2^64-1), both runs succeed, return the same hash, and the
                         native run is cheaper.
+   C23_sha256_premise   the 32-byte premise holds for the executable SHA-256 of Model/Sha256.v.
    C23_gap              how large the difference is (>= 1000 per atom + 500 per pair - 4).
    C23_per_byte_equal   the per-byte costs of sha256tree and sha256 are equal in both models:
                         the reason why the inequality survives arbitrarily large atoms.
@@ -36,7 +37,7 @@
    machine (allocator caps and the stack limit are outside it, see Model/Machine.v; a tree has
    no sharing - the check runs the implementation on shared and unshared inputs). *)
 From Clvm Require Import Model.ShaTreeCost Proofs.ShaTreeCostIneq Proofs.ShaTreeExec Proofs.ShaTreeRun
-  Proofs.ShaTreeCostTests.
+  Proofs.ShaTreeCostTests Model.Sha256 Proofs.Sha256Len.
 Open Scope N_scope.
 
 Theorem C23_native_lt_clvm : forall ncm t, native_cost ncm t < clvm_cost ncm t.
@@ -88,6 +89,10 @@ Example C23_witness :
   native_cost true t = 3310743 /\ clvm_cost true t = 6256571.
 Proof. vm_compute. repeat split. Qed.
 
+(* the premise about the hash function holds for the SHA-256 the extracted model runs *)
+Theorem C23_sha256_premise : forall m, blen (sha256 m) = 32.
+Proof. exact sha256_blen. Qed.
+
 (* the hypotheses of C23 are satisfiable on a non-trivial input (flag word: ENABLE_SHA256_TREE |
    NEW_COST_MODEL | ENABLE_GC, as the tool sets them), and the fuel bound is exact *)
 Example C23_hypotheses_satisfiable :
@@ -109,6 +114,7 @@ Print Assumptions C23_native_is_run.
 Print Assumptions C23_clvm_is_run.
 Print Assumptions C23.
 Print Assumptions C23_flagset.
+Print Assumptions C23_sha256_premise.
 Print Assumptions C23_native_lt_clvm.
 Print Assumptions C23_gap.
 Print Assumptions C23_per_byte_equal.
